@@ -111,6 +111,43 @@ func init() {
 			cx := c05ctxs[e.Rng.Intn(len(c05ctxs))]
 			check("d2", strings.Replace(cx, "E", outer, 1))
 		}
+		// failing helpers whose first result is not a string: a struct, a pointer, a map, a slice, used
+		// as the receiver of a chained member / method / index / loop (Go-only helpers)
+		{
+			inv := 0
+			extra := map[string]interface{}{
+				"failS": func() (T0, error) { inv++; return T0{"partial"}, sentinels[1] },
+				"failP": func() (*T0, error) { inv++; return &T0{"partial"}, sentinels[1] },
+				"failN": func() (*T0, error) { inv++; return nil, sentinels[1] },
+				"failM": func() (map[string]interface{}, error) { inv++; return map[string]interface{}{"k": "v"}, sentinels[1] },
+				"failL": func() ([]string, error) { inv++; return []string{"a"}, sentinels[1] },
+				"failI": func(x int) (T1, error) { inv++; return T1{Name: "t1"}, sentinels[1] },
+			}
+			for _, t := range []string{"before <%= failS().Name %> after", "<% let x = failS().Name %>ok", "<%= if (failS().Name) { %>y<% } else { %>n<% } %>", "<%= failP().Name %>", "<%= failP().Hello(\"w\") %>",
+				"<%= failN().Name %>", "<%= failM()[\"k\"] %>", "<%= failL()[0] %>", "<%= for (x) in failL() { %><%= x %><% } %>", "<%= len(failL()) %>", "<%= failI(1).Name %>|<%= failI(2).In.Name %>",
+				"<%= !failS().Name %>", "<%= failS().Name == nil %>", "<%= rec1(failS().Name) %>", "a<%= [failS().Name] %>b", "<%= failS() %>", "<%= failM() %>"} {
+				inv = 0
+				c := RCase{Tmpl: t, Binds: stdBinds(), Parts: stdParts}
+				o := runRenderExtra(c, extra)
+				e.rep.Evaluations++
+				e.Count("chained-on-failing-helper")
+				if inv == 0 {
+					continue
+				}
+				e.Distinct("inv/" + t)
+				rp := map[string]interface{}{"tmpl": t, "observed": o}
+				switch {
+				case o.Class == "OK":
+					e.Violate("c05-swallowed", fmt.Sprintf("failing helper was invoked but Render succeeded with %q for %q", o.Out, t), rp)
+				case o.Class == "ERR" && o.Sentinel != 1:
+					e.Violate("c05-not-wrapped", fmt.Sprintf("failing helper was invoked, Render failed, but errors.Is(err, E1) is false for %q: %s", t, o.Msg), rp)
+				case o.Class == "ERR" && o.Out != "":
+					e.Violate("c05-partial-output", fmt.Sprintf("Render returned an error and output %q for %q", o.Out, t), rp)
+				case o.Class == "PANIC":
+					e.Violate("eval-panic@"+siteOf(o.Msg), fmt.Sprintf("Render panicked on %q: %s", t, o.Msg), rp)
+				}
+			}
+		}
 		// the repaired defect (F4) stays in the corpus
 		for _, t := range []string{"<%= fail1() == 1 %>", "<%= fail1() || true %>", "<%= true && fail1() %>", "<% if (fail1() == 1) { %>a<% } %>"} {
 			check("corpus", t)
